@@ -177,6 +177,7 @@ def node_setitem(ex, w, key, v, node_ast):
 def node_len(ex, w, node_ast):
   nd = as_node(w)
   n, keys, idx = children(ex, nd)
+  ex.path.ghost['last_len_children'] = (nd, n, keys, idx)    # for ghost code of contracts
   return VInt(n + z3.If(z3.Select(nd.term(), nd.path), 1, 0))
 
 
